@@ -456,6 +456,36 @@ func (s *script) scenarioPartial() {
 	s.kinds["scenario-partial"]++
 }
 
+// scenarioExpiry (short reservation period only): fund everything, abandon the transaction, let the
+// period pass without any other wallet call, then read and fund again: the outputs must be back.
+func (s *script) scenarioExpiry() {
+	e, rng := s.e, s.rng
+	bal, err := e.w.Balance()
+	must(err)
+	if bal.Spendable.IsZero() || s.tieRisk(false) {
+		return
+	}
+	amt := bal.Spendable
+	if rng.Bool() {
+		amt = amt.Div64(2).Add(types.NewCurrency64(uint64(rng.Intn(5))))
+	}
+	s.fund(rng.Bool(), amt, false, types.ZeroCurrency, 0)
+	s.observe()
+	s.tick() // includes the read-path oracle checkExpired
+	if s.stopped != "" {
+		return
+	}
+	s.observe()
+	// selection must see them again as well: the whole balance can be funded
+	h := e.nextH
+	s.fund(rng.Bool(), bal.Spendable, false, types.ZeroCurrency, 0)
+	if e.txns[h] == nil && s.stopped == "" {
+		s.c.Oracle("expiry-did-not-unlock", "the reservation period has passed, yet funding the whole balance %s fails", cur(bal.Spendable))
+	}
+	s.observe()
+	s.kinds["scenario-expiry"]++
+}
+
 func runScript(name string, seed uint64, allowShort bool, nOps int) *vh.Case {
 	rng := vh.NewRNG(seed)
 	cfg := randConfig(rng, allowShort)
@@ -482,6 +512,9 @@ func runScript(name string, seed uint64, allowShort bool, nOps int) *vh.Case {
 	}
 	s.observe()
 	// a fifth of the scripts start with a directed scenario (states random steps rarely reach)
+	if cfg.dur == 1 {
+		s.scenarioExpiry()
+	}
 	switch rng.Intn(10) {
 	case 0, 1:
 		s.scenarioChain()
@@ -530,7 +563,7 @@ func Run(r *vh.Run) {
 	for i := range seeds {
 		seeds[i] = rng.U64()
 	}
-	shortEvery := r.Pick(150, 200)
+	shortEvery := r.Pick(100, 150)
 	for _, c := range parallel(nSeq, func(i int) *vh.Case {
 		return runScript(fmt.Sprintf("seq%d", i), seeds[i], i%shortEvery == 7, nOps)
 	}) {
@@ -546,6 +579,14 @@ func Run(r *vh.Run) {
 		cseeds[i] = rng.U64()
 	}
 	for _, c := range parallel(nConc, func(i int) *vh.Case { return runConcurrent(fmt.Sprintf("conc%d", i), cseeds[i]) }) {
+		r.Add(c)
+	}
+	nGated := r.Pick(60, 800)
+	gseeds := make([]uint64, nGated)
+	for i := range gseeds {
+		gseeds[i] = rng.U64()
+	}
+	for _, c := range parallel(nGated, func(i int) *vh.Case { return runGated(fmt.Sprintf("gated%d", i), gseeds[i]) }) {
 		r.Add(c)
 	}
 	r.Assume("negative DefragThreshold / MaxInputsForDefrag / MaxDefragUTXOs / outputs / n stand for the model's 0; ReservationDuration 1ns stands for the model's 0")
